@@ -134,7 +134,8 @@ def run_check(cd, tier, seed, write=True):
     states = transitions = 0
     model_notes = []
     for mr in cd.models[tier]:
-        r = core.run_tlc(mr.module, os.path.join(core.SPECS, mr.cfg), workers=mr.workers, xmx=mr.xmx, timeout=mr.timeout,
+        # quick tier: the small models finish in seconds, the limit only guards against a hang; thorough tier: a budget
+        r = core.run_tlc(mr.module, os.path.join(core.SPECS, mr.cfg), workers=mr.workers, xmx=mr.xmx, timeout=mr.timeout if tier == 'thorough' else max(mr.timeout, 1500),
                          simulate=mr.simulate, dump_trace=True, tag=cd.pid)
         log('[tlc] %s %s: %d distinct / %d generated, depth %d, %.1fs%s' % (mr.module, mr.cfg, r.distinct, r.generated, r.depth, r.wall,
                                                                             (' VIOLATED ' + str(r.violated)) if r.violated else ''))
